@@ -398,6 +398,17 @@ fn degenerate() -> Vec<String> {
     v.push((0..64).map(|_| "A").collect::<Vec<_>>().join(" and "));
     v.push((0..64).map(|_| "(A or B)").collect::<Vec<_>>().join(" and "));
     v.push("a".repeat(4096));
+    // long texts whose bytes do not fall on character boundaries at round offsets
+    v.push("é".repeat(400));
+    v.push(format!("a{}", "é".repeat(400)));
+    v.push(format!("{}日本", "ab".repeat(255)));
+    v.push(format!("aa{}", "日".repeat(300)));
+    v.push("١٢٣".repeat(100));
+    v.push("1²".to_string());
+    v.push("of(A, 1²)".to_string());
+    v.push("int(a) == -٣".to_string());
+    v.push("-٣".to_string());
+    v.push("2²".to_string());
     v.push("?".to_string() + &"(a*)*".repeat(40));
     v.push("?".to_string() + &"a{1000}".repeat(4));
     v.push("?(".to_string());
@@ -566,6 +577,41 @@ pub fn run(tier: &str, seed: u64) -> i32 {
             let mut m = serde_yaml::Mapping::new();
             m.insert("detection".into(), v.clone());
             cases.push(text_case("c04.yaml", serde_yaml::to_string(&Y::Mapping(m)).unwrap()));
+        }
+    }
+    // identifier blocks of the wrong shape whose rendering is long and multi-byte (error messages
+    // that quote the block must not cut it inside a character)
+    for fill in ["é", "日", "aé", "ab"] {
+        for n in [100usize, 255, 256, 257, 400] {
+            for off in 0..3usize {
+                let long = format!("{}{}", "a".repeat(off), fill.repeat(n));
+                let shapes: Vec<Y> = vec![
+                    Y::String(long.clone()),
+                    Y::Sequence(vec![Y::String(long.clone())]),
+                    Y::Sequence(
+                        (0..60)
+                            .map(|i| {
+                                let mut m = serde_yaml::Mapping::new();
+                                m.insert(Y::String(format!("k{i}")), Y::String(fill.repeat(3)));
+                                Y::Mapping(m)
+                            })
+                            .chain(std::iter::once(Y::String(long.clone())))
+                            .collect(),
+                    ),
+                    Y::Sequence(vec![]),
+                    Y::Number(1.into()),
+                ];
+                for shape in shapes {
+                    let mut det = serde_yaml::Mapping::new();
+                    det.insert("A".into(), shape);
+                    det.insert("condition".into(), Y::String("A".into()));
+                    let mut m = serde_yaml::Mapping::new();
+                    m.insert("detection".into(), Y::Mapping(det));
+                    m.insert("true_positives".into(), Y::Sequence(vec![]));
+                    m.insert("true_negatives".into(), Y::Sequence(vec![]));
+                    cases.push(text_case("c04.yaml", serde_yaml::to_string(&Y::Mapping(m)).unwrap()));
+                }
+            }
         }
     }
     // pattern text beyond what one dense automaton can hold (just above the limit, so that the
